@@ -161,6 +161,8 @@ def run(case):
     out.cls("version=%d" % case["version"], "mode=%d" % case["mode"])
     if case.get("legs"):
         out.cls("history-cut-into-%d-runs" % min(len(case["legs"]) + 1, 4))
+    if case.get("rerun"):
+        out.cls("second-run-on-the-same-solver-object")
     out.info = dict(max_steps=st_["steps"], max_points_dim=max(len(drive.dw_points(sa, d)) for d in range(sa.dim)))
     return out
 
